@@ -79,6 +79,8 @@ func c03(c *Ctx) {
 	if c.readerWrappers("C03.reader-wrappers") < 4 {
 		r.Fail("C03.reader-wrappers", "package", "floor", c.fn("(*joinReader).Read").Pos(), "fewer than the 4 known reader wrappers were analysed")
 	}
+	r.Rule("C03.early-bytes", "the byte stream handed to the frame reader is the peer's stream: bytes buffered by the HTTP server before the upgrade are replayed first and completely (same rule as C17.brnetconn)")
+	c.borrow(c17, map[string]string{"C17.brnetconn": "C03.early-bytes"})
 	r.Rule("C03.inflater-exclusive", "an inflater returned to flateReaderPool is forgotten by the wrapper in the same step (never used or returned twice), so two connections never share one decompressor")
 	r.Assume("bufio.Reader.Read returns 0 <= n <= len(p)")
 
